@@ -93,6 +93,9 @@ POOLS = [
     [0.5, -1.0, 2, None, 10 ** 20],
     [0, 1],
     [None],
+    # the extreme values of the order next to None: a sentinel standing in for None must not collide with a real key
+    [float("inf"), float("-inf"), 1.0, None, None],
+    [float("inf"), None], [float("-inf"), None],
 ]
 
 
